@@ -36,6 +36,14 @@ def _req(xs, f):
     return [xs, list(reversed(xs)) + xs[:1], set(xs), (x for x in reversed(xs)), tuple(xs), frozenset(xs)][f % 6]
 
 
+def _used(x):
+    """The object after a caller has compared, sorted, hashed and searched it (whatever it caches lazily is filled in)."""
+    sorted([x, MeshPatt(x.pattern, []), x, MeshPatt(x.pattern, sorted(x.shading)[:1])])
+    hash(x), x == x, x < x, x <= x, repr(x)
+    list(x.occurrences_in(Perm((0, 2, 1, 3))))
+    return x
+
+
 def make(v, variant=None):
     """Build the value; `variant` (default: the value's own) selects one of several equivalent ways of writing it
     (container form of the arguments, order, repetitions, copies): the TLA+ Key does not depend on it."""
@@ -53,7 +61,13 @@ def make(v, variant=None):
                  lambda: MeshPatt(P, (c for c in reversed(R))), lambda: MeshPatt(P, R + R[:2]), lambda: MeshPatt(Perm(list(P)), tuple(reversed(R))),
                  lambda: MeshPatt(P, R[: len(R) // 2]).shade(*R[len(R) // 2:]) if R else MeshPatt(P),
                  lambda: pickle.loads(pickle.dumps(MeshPatt(P, R))), lambda: copy.deepcopy(MeshPatt(P, R)),
-                 lambda: MeshPatt.unrank(P, sum(1 << (x * (len(P) + 1) + y) for x, y in R))]
+                 lambda: MeshPatt.unrank(P, sum(1 << (x * (len(P) + 1) + y) for x, y in R)),
+                 # obtained from an object that was used first: by shading more cells, through its symmetric images
+                 lambda: _used(MeshPatt(P, R[: len(R) // 2])).shade(*R[len(R) // 2:]) if R else _used(MeshPatt(P)).shade(),
+                 lambda: _used(_used(MeshPatt(P, R)).reverse()).reverse(),
+                 lambda: _used(_used(_used(MeshPatt(P, R)).rotate(1)).rotate(2)).rotate(1),
+                 lambda: _used(_used(MeshPatt(P, R)).inverse()).inverse() if len(R) % 2 else _used(_used(MeshPatt(P, R)).complement()).complement(),
+                 lambda: _used(MeshPatt(P, R[1:])).shade(R[0]) if R else MeshPatt(P)]
         return forms[f % len(forms)]()
     if k == "BivincularPatt":
         m = BivincularPatt(Perm(v["p"]), _req(v["cols"], f), _req(v["rows"], f + 1))
@@ -325,15 +339,15 @@ def big_universe(rnd, quick):
         p = util.rand_perm(rnd, k)
         cells = [(x, y) for x in range(k + 1) for y in range(k + 1)]
         R = sorted(c for c in cells if rnd.random() < rnd.choice([0.5, 0.8]))
-        vals.append(V("MeshPatt", p, R, variant=rnd.randrange(10)))
-        vals.append(V("MeshPatt", p, R, variant=rnd.randrange(10)))          # the same value written differently
-        vals.append(V("MeshPatt", p, R[: len(R) // 2], variant=rnd.randrange(10)))   # sorted shading is a proper prefix
-        vals.append(V("MeshPatt", p, R[1:], variant=rnd.randrange(10)))
-        vals.append(V("MeshPatt", p, cells, variant=rnd.randrange(10)))
+        vals.append(V("MeshPatt", p, R, variant=rnd.randrange(15)))
+        vals.append(V("MeshPatt", p, R, variant=rnd.randrange(15)))          # the same value written differently
+        vals.append(V("MeshPatt", p, R[: len(R) // 2], variant=rnd.randrange(15)))   # sorted shading is a proper prefix
+        vals.append(V("MeshPatt", p, R[1:], variant=rnd.randrange(15)))
+        vals.append(V("MeshPatt", p, cells, variant=rnd.randrange(15)))
         cols = [x for x in range(k + 1) if rnd.random() < 0.5]
         rows = [y for y in range(k + 1) if rnd.random() < 0.3]
         Rb = full(k, cols, rows)
-        vals.append(V("MeshPatt", p, Rb, variant=rnd.randrange(10)))
+        vals.append(V("MeshPatt", p, Rb, variant=rnd.randrange(15)))
         vals.append(V("BivincularPatt", p, Rb, cols, rows, variant=rnd.randrange(7)))
         vals.append(V("BivincularPatt", p, Rb, cols, rows, variant=rnd.randrange(7)))
         vals.append(V("VincularPatt", p, full(k, cols, []), cols, [], variant=rnd.randrange(7)))
